@@ -72,6 +72,13 @@ CLAIMED = {
          "scale correspondence; reorderGlyphs / scale_upem on corpus and generated fonts are compared by glyph name through HarfBuzz (testing). "
          "F10 (MATH fields not scaled) repaired by a fix: commit.",
          "Rocq proof of the cache invariant and rounding bounds + source-regenerated field list + correspondence + HarfBuzz sweeps"),
+ "C18": ("Theorems over the Gallina transcription of computeMegaGlyphOrder and the merged character map: every glyph of every input "
+         "appears exactly once in the merged order under a unique name (merged = concatenation of the renamed orders, NoDup, by induction "
+         "over inputs and glyphs with the freshness of each generated name), renaming only appends a suffix, and a character maps to the glyph "
+         "of the FIRST input that supports it (cmap_first_wins). Tied to the code by exact correspondence on colliding name sets and overlapping "
+         "maps; whole merges of generated fonts (shared/disjoint charsets, names that already look renamed, required features, shared scripts) are "
+         "compared per character and per text through HarfBuzz with the first supporting input (testing). Layout index remapping is sweep-only.",
+         "Rocq proof of naming uniqueness and first-wins cmap + correspondence + HarfBuzz merge sweeps"),
 }
 
 def main():
